@@ -13,7 +13,7 @@ func init() {
 		id: "C16",
 		li: levelInfo{
 			Level:       "other",
-			Explanation: "Static rules on the discovery client. R1 (lockset + channel analysis): no blocking channel operation is performed while holding a mutex that a function on the opposite end of that channel needs - such a lock->channel wait-for cycle deadlocks as soon as the other drainers are unavailable (no stream up). R2: the snapshot of the subscribed set and both queue flushes lie in one critical section; in Subscribe/Unsubscribe the set update precedes the enqueue and the enqueue never drops an entry. R3: every return of the Run loops is the ctx.Done() arm. R4: every blocking operation of the sender loop is guarded by its stop channel. R5: the resubscribe request carries the whole snapshot; the dependency hook subscribes added services on both clients and unsubscribes removed ones on both. \"Within a bounded number of messages\" is not decided. R6: the stop signal watched by the sender's blocking selects is raised by the goroutine that runs the receiver, so a receive failure on an idle stream ends run() and the stream is re-established. R5 also: Subscribe/Unsubscribe of a dependency update run on the dependency stream's goroutine (updates applied in order). The retry loop may be a helper shared by both clients; the sender selects may sit in a helper of the sender loop. R7: no lock is acquired while the must-lockset already holds it (sync.RWMutex is not reentrant). The snapshot of the subscribed set may be taken by a helper. R5 also requires the dependency hook to be called with the response's own Added and Removed lists.",
+			Explanation: "Static rules on the discovery client. R1 (lockset + channel analysis): no blocking channel operation is performed while holding a mutex that a function on the opposite end of that channel needs - such a lock->channel wait-for cycle deadlocks as soon as the other drainers are unavailable (no stream up). R2: the snapshot of the subscribed set and both queue flushes lie in one critical section; in Subscribe/Unsubscribe the set update precedes the enqueue and the enqueue never drops an entry. R3: every return of the Run loops is the ctx.Done() arm. R4: every blocking operation of the sender loop is guarded by its stop channel. R5: the resubscribe request carries the whole snapshot; the dependency hook subscribes added services on both clients and unsubscribes removed ones on both. \"Within a bounded number of messages\" is not decided. R6: the stop signal watched by the sender's blocking selects is raised by the goroutine that runs the receiver, so a receive failure on an idle stream ends run() and the stream is re-established. R5 also: Subscribe/Unsubscribe of a dependency update run on the dependency stream's goroutine (updates applied in order). The retry loop may be a helper shared by both clients; the sender selects may sit in a helper of the sender loop. R7: no lock is acquired while the must-lockset already holds it (sync.RWMutex is not reentrant). The snapshot of the subscribed set may be taken by a helper. R5 also requires the dependency hook to be called with the response's own Added and Removed lists. R2 also: every path from the update of the subscribed set reaches the enqueue. R8: a slice stored as an element is not emptied with [:0] and appended to again.",
 			TrustedBase: []string{"go/ssa", "samlint elock.go, echan.go"},
 		},
 		run: checkC16,
